@@ -578,7 +578,32 @@ def _json_faults(tv0: TokenView, rng):
 
 def splice_faults(a, b, label: str):
     ta, tb = TokenView(a), TokenView(b)
-    if ta.compact != tb.compact or ta.nrec() != 1 or tb.nrec() != 1:
+    if ta.compact != tb.compact:
+        return
+    if not ta.compact and ta.nrec() > 1 and tb.nrec() == ta.nrec():
+        # several recipients: encrypted keys / whole recipient entries / content segments of the sibling token
+        for i in range(ta.nrec()):
+            def ek(tv, i=i, tb=tb):
+                v = tb.get("ek", i)
+                if v == tv.get("ek", i):
+                    return False
+                tv.set("ek", i, v)
+                return True
+            yield ("splice." + label, "encrypted_key of recipient %d from the other token" % i, ek)
+
+            def ent(tv, i=i, tb=tb):
+                tv.obj["recipients"][i] = copy.deepcopy(tb.obj["recipients"][i])
+                return True
+            yield ("splice." + label, "recipient entry %d from the other token" % i, ent)
+        for mask in range(1, 15):
+            def fn(tv, mask=mask, tb=tb):
+                for bit, seg in enumerate(["iv", "ct", "tag", "protected"]):
+                    if mask >> bit & 1:
+                        tv.set(seg, 0, tb.get(seg, 0))
+                return True
+            yield ("splice." + label, "content segments mask %s from the other token" % format(mask, "04b"), fn)
+        return
+    if ta.nrec() != 1 or tb.nrec() != 1:
         return
     names = ["protected", "ek", "iv", "ct", "tag"]
     for mask in range(1, 31):
